@@ -19,6 +19,7 @@ From CG3 Require Import Lib.PyZ Lib.Val Lib.PySlice Model.View Spec.ViewSpec.
 From CG3 Require Import Model.Serial Spec.SerialSpec Proofs.SerialProofs.
 From CG3 Require Model.IndelMap Spec.IndelMapSpec.
 From CG3 Require Lib.Rose Model.Tree Model.TreeJson Proofs.NewickMoreProofs.
+From CG3 Require Model.FeatureMap Model.AnnotDb Spec.AnnotDbSpec Proofs.AnnotDbProofs.
 From Coq Require Import Permutation.
 
 (** * (1) sequences and views *)
@@ -177,6 +178,78 @@ Theorem notcompleted_guard_example :
   nc_okb (mkNC [JStr [69]; JStr [109; 101]; JStr [98; 97; 100]] [(k_source, JStr [120])]) = true.
 Proof. exact ex_nc_ok. Qed.
 
+(** * (2c) distance matrices, profile arrays, feature maps, annotation dbs, moltypes *)
+
+(** [DistanceMatrix]: the decoder ([convert2Ddistance]) rebuilds the names as the SORTED set of the names in the
+    pair keys and fills the diagonal with 0.0.  Proved for sorted names a < b < c (< d) and ARBITRARY off-diagonal
+    cells; the general statement is kept below as [stmt_dmat_roundtrip] (not proved: needs the uniqueness of
+    strictly sorted lists over python's string order) *)
+Theorem dmat_roundtrip_small_2 : forall v01 v10 inv d,
+  dmat_to_dict (mkDm [nA; nB] [[z0; v01]; [v10; z0]] inv) = JObj d ->
+  dmat_of_dict d = Ok (mkDm [nA; nB] [[z0; v01]; [v10; z0]] inv).
+Proof. exact dmat_roundtrip_2. Qed.
+
+Theorem dmat_roundtrip_small_3 : forall v01 v02 v10 v12 v20 v21 inv d,
+  dmat_to_dict (mkDm [nA; nB; nC] [[z0; v01; v02]; [v10; z0; v12]; [v20; v21; z0]] inv) = JObj d ->
+  dmat_of_dict d = Ok (mkDm [nA; nB; nC] [[z0; v01; v02]; [v10; z0; v12]; [v20; v21; z0]] inv).
+Proof. exact dmat_roundtrip_3. Qed.
+
+Theorem dmat_roundtrip_small_4 : forall v01 v02 v03 v10 v12 v13 v20 v21 v23 v30 v31 v32 inv d,
+  dmat_to_dict (mkDm [nA; nB; nC; nD] [[z0; v01; v02; v03]; [v10; z0; v12; v13]; [v20; v21; z0; v23]; [v30; v31; v32; z0]] inv) = JObj d ->
+  dmat_of_dict d = Ok (mkDm [nA; nB; nC; nD] [[z0; v01; v02; v03]; [v10; z0; v12; v13]; [v20; v21; z0; v23]; [v30; v31; v32; z0]] inv).
+Proof. exact dmat_roundtrip_4. Qed.
+
+(** the full statement for distance matrices (NOT proved; decided by the correspondence + oracle):
+    strictly sorted names, a square array of that size with 0.0 on the diagonal *)
+Definition stmt_dmat_roundtrip : Prop :=
+  forall m d, dmat_okb m = true -> dmat_to_dict m = JObj d -> dmat_of_dict d = Ok m.
+
+(** names that are not sorted come back sorted (the matrix permuted with them): [.names], [.array] and the row order
+    of [to_table()] change, [to_dict()] does not *)
+Theorem dmat_name_order_refuted :
+  exists m d m', dmat_to_dict m = JObj d /\ dmat_of_dict d = Ok m' /\ dm_names m = [nC; nA; nB] /\ dm_names m' = [nA; nB; nC] /\ m' <> m.
+Proof. exact dmat_name_order_refuted_lemma. Qed.
+
+(** a non-zero diagonal is not written and reads back as 0.0 *)
+Theorem dmat_diagonal_refuted :
+  exists m d m', dmat_to_dict m = JObj d /\ dmat_of_dict d = Ok m' /\ dm_names m' = dm_names m /\ m' <> m.
+Proof. exact dmat_diagonal_refuted_lemma. Qed.
+
+(** profile arrays (MotifCountsArray / MotifFreqsArray / PSSM) write the type string of their TEMPLATE, which the
+    registry resolves by substring to [deserialise_tabular]: EVERY profile array reads back as the plain DictArray
+    with the same names and data - the class is not preserved (open finding C10-K10) *)
+Theorem profile_class_refuted : forall c a, darr_okb a = true ->
+  exists y, deserialise_object (to_dict (OProfile c a)) = Ok y /\ y = ODarr a /\ observe y <> observe (OProfile c a).
+Proof. exact profile_class_refuted_lemma. Qed.
+
+(** feature maps (spans as [Span.__init__] leaves them: start <= end; lost spans) read back identical *)
+Theorem fmap_roundtrip : forall m d, forallb span_okb (FeatureMap.fspans m) = true -> fmap_to_dict m = JObj d ->
+  fmap_of_dict d = Ok m.
+Proof. exact fmap_roundtrip_lemma. Qed.
+
+(** annotation dbs (the record model of C17): the db read back lists the same records table by table and holds the
+    same multiset of records (C17 [rich_dict_roundtrip_preserves_multiset] composed with the JSON encoding of a record) *)
+Theorem annotation_db_roundtrip : forall db d, AnnotDbProofs.tables_ok [0; 1] db -> db_to_dict [0; 1] db = JObj d ->
+  exists db', db_of_dict d = Ok db' /\
+    AnnotDbSpec.records_in_tables [0; 1] db' = AnnotDbSpec.records_in_tables [0; 1] db /\ Permutation db' db.
+Proof. exact db_roundtrip_lemma. Qed.
+
+(** HEADLINE: an (old-style) sequence in any covered state WITH its annotation db attached: the sequence is observed
+    equal and the db holds the same records *)
+Theorem seq_with_annotation_db_roundtrip : forall s db d,
+  seq_ok s -> AnnotDbProofs.tables_ok [0; 1] db -> db <> [] -> seq_db_to_dict s [0; 1] db = JObj d ->
+  exists s' db', seq_db_of_dict d = Ok (s', db') /\ observe_seq s' = observe_seq s /\
+    AnnotDbSpec.records_in_tables [0; 1] db' = AnnotDbSpec.records_in_tables [0; 1] db /\ Permutation db' db.
+Proof. exact seq_db_roundtrip_lemma. Qed.
+
+Theorem seq_with_annotation_db_example :
+  obj_ok (OSeqDb (mkSeq (mkS (mkV (-1) (-4) (-1) 5 2) [65; 67; 71; 84; 65] KDna true) (Some [115]) []) [0; 1] ex_rows).
+Proof. exact ex_seq_db_ok. Qed.
+
+(** moltypes are serialised by label and restored by [get_moltype(label)]: a registry of named constants *)
+Theorem moltype_roundtrip : forall l d, mem_str l moltype_labels = true -> moltype_to_dict l = JObj d -> moltype_of_dict d = Ok l.
+Proof. exact moltype_roundtrip_lemma. Qed.
+
 (** * (3) the registry *)
 
 (** every class of the package that offers to_rich_dict/to_json and is resolved by the registry is resolved
@@ -214,10 +287,12 @@ Proof. exact roundtrip_via_registry_lemma. Qed.
     [universe] stands for the set of all registered serialisable cogent3 types with their encoders,
     decoders and observation functions.  The theorems above establish this statement for the instance
     [obj]/[to_dict]/[deserialise_object]/[observe]/[obj_ok] of Model/Serial.v (sequences of both
-    implementations, views, indel maps, aligned rows, alignments, trees, tables, dict arrays, NotCompleted);
-    for the remaining registered types (distance matrices, profiles, alphabets, moltypes, genetic codes,
-    substitution models, likelihood functions, app results, annotation dbs, feature maps, new-style
-    collections) it is decided by the oracle "observation before = observation after" on the real code. *)
+    implementations, views, indel maps, aligned rows, alignments, trees, tables, dict arrays, NotCompleted,
+    feature maps, annotation dbs, sequences with an annotation db, moltypes); [obj_ok] is [False] for distance
+    matrices (only [dmat_roundtrip_small_*], see [stmt_dmat_roundtrip]) and for profile arrays (refuted);
+    for the remaining registered types (alphabets, genetic codes, substitution models, likelihood functions,
+    app results, alignments with an annotation db, new-style collections) it is decided by the oracle
+    "observation before = observation after" on the real code. *)
 Definition stmt_full_property (T Obs J : Type) (ok : T -> Prop) (encode : T -> J) (decode : J -> option T)
   (obs : T -> Obs) : Prop :=
   forall x, ok x -> exists y, decode (encode x) = Some y /\ obs y = obs x.
